@@ -53,6 +53,10 @@ def pset(ps, oriented=False):
 
 def main(tier):
     ck = lib.Check("C09", tier)
+    # every decision of this check compares two outputs of the implementation (LSH vs exhaustive, batched vs unbatched, one argument order vs the other): none uses the regenerated model, so a translator
+    # problem does not demote them to unconfirmed disagreements (lib.Check.violation, independent=True)
+    _violation = ck.violation
+    ck.violation = lambda what, replay, no_input=False, independent=True: _violation(what, replay, no_input=no_input, independent=independent)
     ck.prepare("C09.v")
     rng = ck.rng
     thorough = tier == "thorough"
